@@ -9,3 +9,6 @@ type VerifUpstreamDownstream = upstreamDownstream
 
 // VerifSessionCheck lets monitors type-assert session_checks rows (alias only).
 type VerifSessionCheck = sessionCheck
+
+// VerifQueryWrapper lets monitors type-assert prepared-queries rows (alias only).
+type VerifQueryWrapper = queryWrapper
